@@ -18,11 +18,22 @@ import numpy as np  # noqa: E402
 def objective(desc):
     k = desc['kind']
     if k == 'sin':
-        w, a, q = desc['w'], desc['a'], desc.get('q', 0)
+        w, a, q, off = desc['w'], desc['a'], desc.get('q', 0), desc.get('offset', 0.0)
 
         def f(y):
-            v = float(sum(math.sin(wi * yi) + ai * yi for wi, ai, yi in zip(w, a, y)))
+            v = float(sum(math.sin(wi * yi) + ai * yi for wi, ai, yi in zip(w, a, y))) + off
             return float(round(v / q) * q) if q else v
+        return f
+    if k == 'multi':  # sum_i sin(w_i y_i) + cos(v_i y_i + ph_i)  + c * |y|^2  (several frequencies: M keeps growing late in a run)
+        w, v, ph, c = desc['w'], desc['v'], desc['ph'], desc.get('c', 0.0)
+        return lambda y: float(sum(math.sin(wi * yi) + math.cos(vi * yi + pi) for wi, vi, pi, yi in zip(w, v, ph, y)) + c * sum(yi * yi for yi in y))
+    if k == 'prod':   # prod_i trig_i(w_i y_i) + c |y|^2
+        w, c = desc['w'], desc.get('c', 0.0)
+        def f(y):
+            t = 1.0
+            for i, (wi, yi) in enumerate(zip(w, y)):
+                t *= math.sin(wi * yi) if i % 2 == 0 else math.cos(wi * yi)
+            return float(t + c * sum(yi * yi for yi in y))
         return f
     if k == 'cones':  # min_i off_i + s_i * ||y - c_i||_2 ; Lipschitz max s_i ; minimum min off_i (centres inside box)
         cs, ss, offs = desc['centers'], desc['slopes'], desc['offsets']
@@ -72,6 +83,11 @@ def random_objective(rng, n, kinds=('sin', 'sin', 'sinq', 'cones', 'linear', 'qu
     if k == 'sinq':
         return {'kind': 'sin', 'w': [round(rng.uniform(0.5, 12), 3) for _ in range(n)], 'a': [round(rng.uniform(-1, 1), 3) for _ in range(n)],
                 'q': rng.choice([0.25, 0.5, 1.0])}
+    if k == 'multi':
+        return {'kind': 'multi', 'w': [round(rng.uniform(1, 8), 2) for _ in range(n)], 'v': [round(rng.uniform(3, 14), 2) for _ in range(n)],
+                'ph': [round(rng.uniform(0, 3), 2) for _ in range(n)], 'c': rng.choice([0.0, 0.1, 0.3])}
+    if k == 'prod':
+        return {'kind': 'prod', 'w': [round(rng.uniform(2, 9), 2) for _ in range(n)], 'c': rng.choice([0.1, 0.2, 0.5])}
     if k == 'linear':
         return {'kind': 'linear', 'a': [round(rng.uniform(-2, 2), 3) for _ in range(n)]}
     if k == 'quad':
